@@ -382,8 +382,13 @@ class Ref:
             W = 32
         return W
 
-    def fit(self, v, signed):
+    def fit(self, v, signed, fixed=None):
         W = self.W
+        if self.scale_guard and W == 32 and fixed is not None:
+            # C02 with a 4-byte operand or destination: "the scaled
+            # operands and intermediate results fit the narrowest width"
+            s = v if fixed else v * FB
+            return -(1 << 31) <= s < (1 << 31)
         if self.scale_guard:
             v = v * FB * FB
             return -(1 << (W - 1)) <= v < (1 << (W - 1))
@@ -403,30 +408,31 @@ class Ref:
         k = t[0]
         if k == "p":
             v, signed, fixed = self.leafval(t[1], store)
-            return Node({v}, fixed, signed, True, self.fit(v, signed))
+            return Node({v}, fixed, signed, True, self.fit(v, signed, fixed))
         if k == "c":
             return Node({t[1]}, False, t[1] < 0, True,
-                        self.fit(t[1], t[1] < 0))
+                        self.fit(t[1], t[1] < 0, False))
         if k == "f":
             fr = Fraction(t[1]) * FB
             if fr.denominator != 1:
                 raise Unchecked("constant with more than 5 digits")
             v = fr.numerator
-            return Node({v}, True, v < 0, True, self.fit(v, v < 0))
+            return Node({v}, True, v < 0, True, self.fit(v, v < 0, True))
         if k == "neg":
             a = self.ev(t[1], store)
             vals = {-v for v in a.vals}
             return Node(vals, a.fixed, True, a.ring,
-                        a.fits and all(self.fit(v, True) for v in vals))
+                        a.fits and all(self.fit(v, True, a.fixed) for v in vals))
         if k == "abs":
             a = self.ev(t[1], store)
-            if not a.fits or not all(self.fit(v, True) for v in a.vals):
+            if not a.fits or not all(self.fit(v, True, a.fixed)
+                                     for v in a.vals):
                 # abs is a signed notion: its operand must mean the same
                 # read as signed or unsigned (narrowest reading of "fits")
                 raise Unchecked("abs operand outside the width")
             vals = {abs(v) for v in a.vals}
             return Node(vals, a.fixed, a.signed, False,
-                        all(self.fit(v, a.signed) for v in vals))
+                        all(self.fit(v, a.signed, a.fixed) for v in vals))
         if k == "b":
             return self.binop(t[1], self.ev(t[2], store),
                               self.ev(t[3], store))
@@ -476,7 +482,17 @@ class Ref:
                     raise ValueError(op)
         if len(vals) > self.MAXSET:
             raise Unchecked("too many rounding alternatives")
-        fits = a.fits and b.fits and all(self.fit(v, signed) for v in vals)
+        fits = a.fits and b.fits and all(self.fit(v, signed, fixed)
+                                        for v in vals)
+        if self.scale_guard and self.W == 32 and (
+                op in ("/", "//", "%") or (op == "*" and a.fixed and b.fixed)):
+            # operations that rescale (x 10^5 or x 10^10 before dividing,
+            # raw x raw before dividing): their internal intermediates are
+            # part of "intermediate results fit the narrowest width"
+            def guard(v):
+                return abs(v) * FB * FB < (1 << 31)
+            fits = fits and all(guard(v) for n in (a, b) for v in n.vals) \
+                and all(guard(v) for v in vals)
         return Node(vals, fixed, signed, a.ring and b.ring and op in RING,
                     fits)
 
@@ -498,7 +514,7 @@ class Ref:
         if isinstance(fmt, tuple):
             return vals, None
         lim = 1 << (bits - 1)
-        if node.fits and all(self.fit(v, node.signed) for v in vals):
+        if node.fits and all(self.fit(v, node.signed, dfixed) for v in vals):
             nbits = bits
         elif plain and self.scale_guard and dfixed and \
                 all(-lim <= v < lim for v in vals):
